@@ -98,8 +98,103 @@ def python_runners(facts):
     return run
 
 
+def slot_targets(facts):
+    """callee text -> in-file functions it may reach: a direct call, or a call
+    through a handler slot (every member of the table that
+    C14.getstate-membership proves to be all that can be stored there)"""
+    from .crec import _field_tables
+    ft = _field_tables(facts)
+    defined = set(facts.defined_functions())
+    cache = {}
+
+    def targets(c):
+        if c not in cache:
+            if c in defined:
+                cache[c] = [c]
+            elif c.startswith("->") and c[2:] in ft:
+                cache[c] = [m for m in facts.table(ft[c[2:]]) if m in defined]
+            else:
+                cache[c] = []
+        return cache[c]
+    return targets
+
+
+def uses_after_callback(ctx, facts, runners):
+    """{(function, parameter index)}: on some path the function still
+    consults that (pointer) parameter - dereferences it, or hands it to a
+    callee that does - after a call that can run arbitrary Python code.  A
+    caller must therefore keep the object alive for the whole call: a
+    reference that is merely borrowed from a dictionary is not enough."""
+    from ..csym import cached_paths
+    targets = slot_targets(facts)
+    events = {}
+    for f in facts.defined_functions():
+        if f in SKIP_FUNCS:
+            continue
+        paths = cached_paths(ctx, facts, f)
+        if paths is None:
+            continue
+        params = [p.name for p in facts.params(f)]
+        evs = []
+        for p in paths:
+            ev = []
+            for it in p.trace:
+                if it[0] == "atom":
+                    ev.append(("use", [it[1]]))
+                elif it[0] == "store":
+                    ev.append(("use", [it[1], it[2]]))
+                else:
+                    _, c, args, full, line, _stmt = it
+                    if c in INCREF or c in DECREF:
+                        continue
+                    ev.append(("call", c, list(args), full))
+            evs.append(ev)
+        events[f] = (params, evs)
+
+    def mentions(t, prm):
+        return t == prm or t.startswith(prm + "->") or derefs(t, prm)
+
+    summ = set()
+    changed = True
+    while changed:
+        changed = False
+        for f, (params, evs) in events.items():
+            for i, prm in enumerate(params):
+                if (f, i) in summ:
+                    continue
+                hit = False
+                for ev in evs:
+                    after = False
+                    for e in ev:
+                        if e[0] == "use":
+                            if after and any(mentions(t, prm) for t in e[1]):
+                                hit = True
+                        else:
+                            _, c, args, full = e
+                            if after and (full.startswith(prm + "->")
+                                          or any(mentions(a, prm) for a in args)):
+                                hit = True
+                            for j, a in enumerate(args):
+                                if a == prm and any((g, j) in summ
+                                                    for g in targets(c)):
+                                    hit = True
+                            if (c in API and API[c]["python"]) \
+                                    or c.startswith("->") or c in runners:
+                                after = True
+                        if hit:
+                            break
+                    if hit:
+                        break
+                if hit:
+                    summ.add((f, i))
+                    changed = True
+    return summ, targets
+
+
 class Own:
     RUNNERS = frozenset()
+    USES_AFTER = frozenset()
+    TARGETS = staticmethod(lambda c: [])
 
     def __init__(self, facts, fname, params, ret_pointer):
         self.facts, self.fname = facts, fname
@@ -287,6 +382,24 @@ class Own:
             # uses
             check_use(args, line, f"`{c}(...)`")
             check_stale(args, line, f"`{c}(...)`")
+            # a value kept alive only by a dictionary is handed to a callee
+            # that still uses it after running arbitrary Python code
+            for j, a in enumerate(args):
+                if a in weak and owned.get(a, 0) <= 0 \
+                        and origin.get(a) != "param":
+                    tg = [g for g in Own.TARGETS(c)
+                          if (g, j) in Own.USES_AFTER]
+                    if tg:
+                        out.append(("borrowed-into-callback", a, line,
+                                    f"`{a[:70]}` is only borrowed from a "
+                                    f"dictionary and is passed to `{c}` "
+                                    f"(argument {j + 1}); {', '.join(sorted(tg)[:4])} "
+                                    f"can run arbitrary Python code - which "
+                                    f"may remove that dictionary entry and "
+                                    f"free the object - and still use the "
+                                    f"argument afterwards: the caller must "
+                                    f"hold its own reference for the "
+                                    f"duration of the call"))
             if c in ("PyDict_SetItem", "PyList_Append", "PyDict_SetItemString") \
                     and args:
                 stored.add(args[-1])
@@ -429,6 +542,9 @@ def analyse_ownership(ctx):
     def compute():
         facts = get_cfacts(ctx)
         Own.RUNNERS = frozenset(python_runners(facts))
+        ua, tg = uses_after_callback(ctx, facts, Own.RUNNERS)
+        Own.USES_AFTER = frozenset(ua)
+        Own.TARGETS = staticmethod(tg)
         results = {}
         analysed, skipped = [], []
         for fname in facts.defined_functions():
